@@ -688,6 +688,40 @@ theorem missing_dir_never_prevents_saving {D : Type} (same : D → D → Bool) (
   rw [ho]
   exact ⟨rfl, f2 hren, f1 rfl, rfl, h2 hdiff⟩
 
+/-- The model satisfies the clause `SavedWherever` of the specification: for every equipment id, module name, set of
+existing directories and content of the tree, what can be seen of a call of `__save_params` that meets no I/O failure -
+raised?, number of file operations, the listing of the two places it works on - is accepted: it does not raise, and if it
+touched the file system the complete new snapshot is at the derived place and nothing else is listed. -/
+theorem model_saved_wherever {D : Type} (same : D → D → Bool) (ser : D → List Bytes) (eq mod : String)
+    (ds : List Path) (fs : FS Path) (believed data : D) :
+    let tgt := persistentFile eq mod
+    let o := saveStepAt same ser tgt ds believed data none
+    SavedWherever eq mod (ser data).flatten
+      ⟨o.1.raised, o.1.evs.length, treeOf (applyEvs fs o.1.evs) [tgt, tmpFile tgt]⟩ := by
+  intro tgt o
+  cases hs : same data believed
+  · obtain ⟨h1, h2, h3, _, _⟩ := missing_dir_never_prevents_saving same ser eq mod ds fs believed data hs
+    refine ⟨h1, fun _ => ?_⟩
+    have ht : treeOf (applyEvs fs o.1.evs) [tgt, tmpFile tgt] = [(tgt, (ser data).flatten)] := by
+      simp only [treeOf, List.filterMap_cons, List.filterMap_nil]
+      rw [show applyEvs fs o.1.evs tgt = some (ser data).flatten from h2,
+        show applyEvs fs o.1.evs (tmpFile tgt) = none from h3]
+      rfl
+    show InPlace eq mod (ser data).flatten (treeOf (applyEvs fs o.1.evs) [tgt, tmpFile tgt])
+    rw [ht]
+    refine ⟨by simp [List.lookup, tgt], ?_⟩
+    intro e he
+    simp only [List.mem_singleton] at he
+    rw [he]
+  · have ho : o.1 = ⟨believed, [], false⟩ := by simp [o, saveStepAt, hs]
+    rw [ho]
+    exact ⟨rfl, fun h => absurd h (by simp)⟩
+
+/-- the monitor decides the clause -/
+theorem savedWhereverB_iff (eq mod : String) (new : Bytes) (o : PlaceObs) :
+    savedWhereverB eq mod new o = true ↔ SavedWherever eq mod new o := by
+  simp [savedWhereverB]
+
 /-- What the two lines 156-157 are there for: the same call *without* them, in a tree where the directory of the file
 does not exist, raises and leaves nothing - for ever, since the next call meets the same tree. -/
 theorem without_directory_nothing_is_saved (tgt : Path) (ds : List Path) (hmiss : parentDir tgt ∉ ds)
